@@ -26,6 +26,17 @@ def plan(tier, seed):
         specs.append({"klass": "subsets", "i": k, "backend": be, "delta": (1e-8, 1e-3, 0.5)[(k // 4) % 3], "fill": k >= 16, "shapes": ["linear_k", "affine"] if k % 3 == 0 else None})
     for k in range(4 if tier == "quick" else 20):
         specs.append({"klass": "alias_direct", "i": k, "backend": "numpy", "delta": 1e-8})
+    from . import c12
+
+    for k, h in enumerate(c12.HAND[:2]):
+        for be in ("numpy", "c", "jax"):
+            # unused definitions removed from the code (one of the texts changes the order of the derivatives)
+            specs.append({"klass": "remove_unused", "i": 3000 + 3 * k + ("numpy", "c", "jax").index(be), "backend": be, "delta": 1e-8, "text": h, "remove_unused": True})
+    for k in range(6 if tier == "quick" else 40):
+        specs.append({"klass": "remove_unused", "i": 3100 + k, "backend": ("numpy", "c", "jax")[k % 3], "delta": (1e-8, 1e-3)[k % 2], "remove_unused": True, "append_unused": True})
+    for k in range(6 if tier == "quick" else 40):
+        # one code generator object asked for the scheme several times with different stiff sets / deltas
+        specs.append({"klass": "generator_reuse", "i": 3200 + k, "backend": "numpy", "delta": 1e-8})
     for s in specs:
         s["prop"] = ID
         s.setdefault("soft_timeout", 200)
@@ -63,13 +74,33 @@ def direct_alias_module(ode, alias, stiff, delta):
     return "\n".join(parts), f.__code__.co_name
 
 
+class ReusedGenerator:
+    """One PythonCodeGenerator for the whole case: the fixed parts are generated once, the hybrid scheme is requested
+    again for every stiff set (and once in between with another delta, whose result is discarded)."""
+
+    def __init__(self, ode, delta):
+        from gotranx.codegen.python import Format, PythonCodeGenerator
+        from gotranx.schemes import get_scheme
+
+        self.get_scheme, self.delta = get_scheme, delta
+        self.cg = cg = PythonCodeGenerator(ode, format=Format.none)
+        self.fixed = [cg.imports(), cg.parameter_index(), cg.state_index(), cg.monitor_index(), cg.rhs(), cg.scheme(get_scheme("explicit_euler")), cg.scheme(get_scheme("generalized_rush_larsen"), delta=delta)]
+
+    def module(self, stiff):
+        f = self.get_scheme("hybrid_rush_larsen")
+        self.cg.scheme(f, delta=0.75, stiff_states=[])  # another request on the same generator
+        return "\n".join(self.fixed + [self.cg.scheme(self.get_scheme("hybrid_rush_larsen"), delta=self.delta, stiff_states=list(stiff))])
+
+
 def run_case(spec, ctx):
     rng = C.rng_for(spec)
     out = {"violations": [], "counters": {}, "evaluations": 0, "nontrivial": False, "status": "held"}
     cn = out["counters"]
     be, delta = spec["backend"], spec["delta"]
     text = spec.get("text") or grlmodels.gen_grl_model(rng, n_states=rng.choice([2, 3, 3, 4]), shapes=spec.get("shapes"))[0]
-    out["hash"] = models.structural_hash(text) + f":{be}"
+    if spec.get("append_unused"):
+        text = text.replace("parameters(k=-0.5, tau=2.0, b=0.75)", "parameters(k=-0.5, tau=2.0, b=0.75, unused_p=1.5)") + "unused_a = x0 * 3 + unused_p\nunused_b = w * k\n"
+    out["hash"] = models.structural_hash(text) + f":{be}" + (":ru" if spec.get("remove_unused") else "") + (":reuse" if spec["klass"] == "generator_reuse" else "")
     ref = RefModel.from_text(text)
     if ref.ill_formed():
         out.update(status="inconclusive", reason="generator produced an ill-formed model")
@@ -79,7 +110,8 @@ def run_case(spec, ctx):
         out.update(status="skipped", reason="rejected_by_loader: " + lo.describe())
         return out
     ode = lo.value
-    if not B.generate(be, ode, schemes=["explicit_euler", "generalized_rush_larsen"], delta=delta).ok:
+    ru = {"remove_unused": True} if spec.get("remove_unused") else {}
+    if not B.generate(be, ode, schemes=["explicit_euler", "generalized_rush_larsen"], delta=delta, **ru).ok:
         out.update(status="skipped", reason="module cannot be generated with Euler+GRL alone (C01-C06)")
         return out
     pts, st = points.sample(ref, rng, want=4 if spec.get("tier") == "quick" else 8, max_draws=30)
@@ -100,6 +132,7 @@ def run_case(spec, ctx):
     compared = 0
     sets_done = 0
     aliases = ["hybrid_rush_larsen"] if spec["klass"] != "alias_direct" else ["rush_larsen", "forward_rush_larsen", "hybrid_rush_larsen"]
+    reuse = ReusedGenerator(ode, delta) if spec["klass"] == "generator_reuse" else None
     for given, effective in stiff_sets(rng, ref, be, spec.get("tier")):
         for alias in aliases:
             if spec["klass"] == "alias_direct":
@@ -108,8 +141,11 @@ def run_case(spec, ctx):
                     out["violations"].append({"kind": "function_not_named_by_alias", "detail": {"alias": alias, "co_name": oc.value[1]}})
                     continue
                 code = oc.value[0] if oc.ok else None
+            elif spec["klass"] == "generator_reuse":
+                oc = C.call(reuse.module, given)
+                code = oc.value if oc.ok else None
             else:
-                oc = B.generate(be, ode, schemes=SCH, delta=delta, stiff_states=given)
+                oc = B.generate(be, ode, schemes=SCH, delta=delta, stiff_states=given, **ru)
                 code = oc.value
             if not oc.ok:
                 out["violations"].append({"kind": "generation_raises", "detail": {"exc": oc.describe(), "stiff": given, "backend": be}})
